@@ -13,6 +13,7 @@ structure MetaFactsN (ft : Feat) (Γ : Ctx) (ci : ClassInfo) (m : XmlMeta) : Pro
   choices : m.choices = []
   anyAttrs : m.anyAttributes = [] ∨ ∃ av, m.anyAttributes = [av] ∧ mapVarOK ci av = true
   noNilAttr : m.findAttribute xsiNil = none
+  noTypeAttr : ft.inherit = true → m.findAttribute xsiType = none
   wrappers : ∀ ww ∈ m.wrappers, ∃ v ∈ m.elementVars, v.wrapperQName = some ww.1
   attrs : ∀ var ∈ m.attributeVars, FN.attrVarOK ft m ci var = true ∨
     (m.anyAttributes = [var] ∧ mapVarOK ci var = true)
@@ -31,15 +32,19 @@ theorem metaFactsN_of {ft : Feat} {Γ : Ctx} {ci : ClassInfo} {m : XmlMeta}
     (h : metaOK ft Γ ci m = true) : MetaFactsN ft Γ ci m := by
   simp only [metaOK, Bool.and_eq_true, decide_eq_true_eq, Bool.not_eq_true', List.isEmpty_iff,
     List.all_eq_true, List.any_eq_true, Bool.or_eq_true] at h
-  obtain ⟨⟨⟨⟨⟨⟨⟨⟨⟨⟨⟨⟨⟨⟨⟨⟨h1, _⟩, h3⟩, h4⟩, h5⟩, h6⟩, h6b⟩, h7⟩, h8⟩, h9⟩, h10⟩, h11⟩, h11b⟩, h11c⟩, h12⟩,
+  obtain ⟨⟨⟨⟨⟨⟨⟨⟨⟨⟨⟨⟨⟨⟨⟨⟨⟨h1, _⟩, h3⟩, h4⟩, h5⟩, h6⟩, h6b⟩, h6c⟩, h7⟩, h8⟩, h9⟩, h10⟩, h11⟩, h11b⟩, h11c⟩, h12⟩,
     h13⟩, h14⟩ := h
-  refine ⟨h1, ?_, h4, h5, ?_, h6b, ?_, ?_, h9, ?_, h11, h11b, h11c, h12, h13, ?_⟩
+  refine ⟨h1, ?_, h4, h5, ?_, h6b, ?_, ?_, ?_, h9, ?_, h11, h11b, h11c, h12, h13, ?_⟩
   · intro hq; simp [hq] at h3
   · rcases h6 with h6 | ⟨_, h6⟩
     · exact Or.inl h6
     · split at h6
       · rename_i av hav; exact Or.inr ⟨av, hav, h6⟩
       · cases h6
+  · intro hi
+    rcases h6c with h | h
+    · rw [hi] at h; cases h
+    · exact h
   · intro ww hww
     obtain ⟨v, hv, hvw⟩ := h7 ww hww
     exact ⟨v, hv, hvw⟩
@@ -63,7 +68,7 @@ theorem ctx_metaFactsN {ft : Feat} {Γ : Ctx} (hΓ : ctxOK ft Γ = true) {c : Cl
   refine ⟨metaFactsN_of hmo, ?_⟩
   simp only [metaOK, Bool.and_eq_true, Bool.or_eq_true, Bool.not_eq_true'] at hmo
   intro hn
-  have := hmo.1.1.1.1.1.1.1.1.1.1.1.1.1.1.1.2
+  have := hmo.1.1.1.1.1.1.1.1.1.1.1.1.1.1.1.1.2
   simpa [hn] using this
 
 theorem primTypeOf_some {v : XmlVar} {t : PT} (h : primTypeOf v = some t) :
@@ -165,7 +170,7 @@ theorem attrFactsN_of {ft : Feat} {e : BEnv} {Γ : Ctx} {m : XmlMeta} {ci : Clas
     | _ => rw [hlook] at hx; simp [mapValOK] at hx
 
 /-- which of the two kinds of element var, with its default -/
-inductive ElemKindN (Γ : Ctx) (m : XmlMeta) (var : XmlVar) : Prop
+inductive ElemKindN (ft : Feat) (Γ : Ctx) (m : XmlMeta) (var : XmlVar) : Prop
   | prim (t : PT) (hc : var.clazz = none) (hp : primTypeOf var = some t) (ht : var.types = [.prim t])
       (hd : if var.tokens || var.listElement then
               var.default = .listFactory ∧ ¬ (var.tokens = true ∧ var.listElement = true ∧ var.nillable = true)
@@ -173,12 +178,14 @@ inductive ElemKindN (Γ : Ctx) (m : XmlMeta) (var : XmlVar) : Prop
   | cls (c : ClassId) (m' : XmlMeta) (hc : var.clazz = some c) (htk : var.tokens = false)
       (ht : var.types = [.cls c])
       (hd : if var.listElement then var.default = .listFactory else var.default = .none)
-      (hm : metaOf Γ c (targetUri m.qname) = some m') (hns : nsAgree Γ m' var.qname = true)
+      (hm : metaOf Γ c (targetUri m.qname) = some m')
+      (hns : ∀ k ∈ classesFor ft Γ c, ∀ mk, metaOf Γ k (targetUri m.qname) = some mk →
+        nsAgreeN ft Γ mk var.qname = true)
 
 theorem elemFactsN_of {ft : Feat} {Γ : Ctx} {m : XmlMeta} {ci : ClassInfo} {var : XmlVar}
     (MF : MetaFactsN ft Γ ci m) (hmem : var ∈ m.elementVars)
     (hv : FN.elemVarOK ft Γ m ci var = true) :
-    ElemFactsN m var ∧ ElemKindN Γ m var ∧ fieldAgreesN ci var = true ∧
+    ElemFactsN m var ∧ ElemKindN ft Γ m var ∧ fieldAgreesN ci var = true ∧
       (var.nillable = true → ft.nillable = true) ∧ (var.init = true ∨ fixedOK var = true) := by
   simp only [FN.elemVarOK, FN.varBase, Bool.and_eq_true, decide_eq_true_eq, Bool.not_eq_true',
     VarCore.isElement, Option.isNone_iff_eq_none, Bool.or_eq_true] at hv
@@ -249,15 +256,50 @@ theorem elemFactsN_of {ft : Feat} {Γ : Ctx} {m : XmlMeta} {ci : ClassInfo} {var
     | some c =>
       rw [hcl] at hkind
       simp only [Bool.and_eq_true, decide_eq_true_eq, Bool.not_eq_true'] at hkind
-      obtain ⟨⟨⟨htk, hty⟩, hd⟩, hm⟩ := hkind
-      split at hm
-      · rename_i m' hm'
-        refine ElemKindN.cls c m' hcl htk hty ?_ hm' hm
-        split at hd <;> simp_all
-      · cases hm
+      obtain ⟨⟨⟨⟨htk, hty⟩, hd⟩, hm⟩, hall⟩ := hkind
+      cases hm' : metaOf Γ c (targetUri m.qname) with
+      | none => simp [hm'] at hm
+      | some m' =>
+        refine ElemKindN.cls c m' hcl htk hty ?_ hm' ?_
+        · split at hd <;> simp_all
+        · intro k hk mk hmk
+          have := (List.all_eq_true.1 hall) k hk
+          simpa [hmk] using this
   · intro hn
     rcases hnl with h | h
     · rw [hn] at h; cases h
     · exact h
+
+theorem mem_classesFor_self (ft : Feat) (Γ : Ctx) (c : ClassId) : c ∈ classesFor ft Γ c := by
+  unfold classesFor; split <;> simp
+
+theorem mem_classesFor_sub {ft : Feat} {Γ : Ctx} {c k : ClassId} (hi : ft.inherit = true)
+    {ci : ClassInfo} (hfind : Γ.find k = some ci) (hsub : Γ.isSubclass k c = true) :
+    k ∈ classesFor ft Γ c := by
+  unfold classesFor
+  rw [if_pos hi]
+  by_cases hk : k = c
+  · simp [hk]
+  · refine List.mem_cons_of_mem _ (List.mem_filter.2 ⟨?_, by simp [hk, hsub]⟩)
+    have hmem : ci ∈ Γ.classes := List.mem_of_find?_eq_some hfind
+    exact List.mem_map.2 ⟨ci, hmem, find_id hfind⟩
+
+/-- the generator and the parser look the class `k` of an item of `var` up under different
+namespaces, with the same outcome -/
+theorem nsAgreeN_var {ft : Feat} {Γ : Ctx} {m : XmlMeta} {q : QN} (h : nsAgreeN ft Γ m q = true)
+    {var : XmlVar} (hmem : var ∈ m.elementVars) {c : ClassId} (hcl : var.clazz = some c)
+    {k : ClassId} (hk : k ∈ classesFor ft Γ c) :
+    (metaOf Γ k (targetUri q)).map dropQ = (metaOf Γ k (targetUri m.qname)).map dropQ := by
+  simp only [nsAgreeN, List.all_eq_true] at h
+  have := h var hmem
+  simp only [hcl, List.all_eq_true, decide_eq_true_eq] at this
+  exact this k hk
+
+theorem nsAgreeN_self (ft : Feat) (Γ : Ctx) (m : XmlMeta) : nsAgreeN ft Γ m m.qname = true := by
+  simp only [nsAgreeN, List.all_eq_true]
+  intro w _
+  split
+  · rfl
+  · simp
 
 end Proofs.C01
